@@ -17,6 +17,8 @@ static struct prog P[8]; static int np;
 static struct cds_wfcq_head qh[2]; static struct cds_wfcq_tail qt[2];
 static struct cds_wfcq_node nodes[MAXN];
 static int dequeued[MAXN];
+static int stateless;	/* odd seeds: a locked blocking dequeue uses the stateless entry point cds_wfcq_dequeue_blocking() (own wrapper in the
+			 * library, own lock acquisition); its result carries no LAST flag: the ret event says so ("ws":"n") */
 
 static int qidx(const char *s) { return s[1] == '2'; }
 static const char *nname(struct cds_wfcq_node *n) { return vrt_sym(n); }
@@ -34,11 +36,12 @@ static void *runner(void *arg)
 			vrt_op_end();
 			snprintf(res, sizeof res, "%s", r ? "nonEmpty" : "wasEmpty");
 		} else if (!strcmp(o->kind, "deq")) {
-			int state = 0; struct cds_wfcq_node *n;
+			int state = 0; struct cds_wfcq_node *n; const char *ws = "y";
 			vrt_log("\"op\":\"call\",\"api\":\"deq\",\"q\":\"q%d\",\"blk\":%d,\"lck\":%d", o->q + 1, o->blk, o->lck);
 			vrt_op_begin(o->blk ? "wfcq_dequeue_blocking" : "wfcq_dequeue_nonblocking", (o->blk || o->lck) ? VP_BLOCKING : VP_LOCKFREE);
 			if (o->lck) {
-				if (o->blk) n = cds_wfcq_dequeue_with_state_blocking(h, t, &state);
+				if (o->blk && stateless) { n = cds_wfcq_dequeue_blocking(h, t); ws = "n"; }
+				else if (o->blk) n = cds_wfcq_dequeue_with_state_blocking(h, t, &state);
 				else { cds_wfcq_dequeue_lock(h, t); n = __cds_wfcq_dequeue_with_state_nonblocking(h, t, &state); cds_wfcq_dequeue_unlock(h, t); }
 			} else {
 				n = o->blk ? __cds_wfcq_dequeue_with_state_blocking(h, t, &state) : __cds_wfcq_dequeue_with_state_nonblocking(h, t, &state);
@@ -52,6 +55,8 @@ static void *runner(void *arg)
 				if (dequeued[id]++) vrt_fail("ORACLE node n%d dequeued twice", id);
 				snprintf(res, sizeof res, "%s%s", nname(n), (state & CDS_WFCQ_STATE_LAST) ? "/LAST" : "");
 			}
+			vrt_log("\"op\":\"ret\",\"r\":\"%s\",\"ws\":\"%s\"", res, ws);
+			continue;
 		} else if (!strcmp(o->kind, "splice")) {
 			enum cds_wfcq_ret r;
 			vrt_log("\"op\":\"call\",\"api\":\"splice\",\"q\":\"q%d\",\"s\":\"q%d\",\"blk\":%d,\"lck\":%d", o->q + 1, o->s + 1, o->blk, o->lck);
@@ -88,6 +93,7 @@ static void *runner(void *arg)
 int main(int argc, char **argv)
 {
 	struct vrt_opts o; vrt_parse_args(argc, argv, &o);
+	stateless = (int) (o.seed & 1);
 	FILE *f = fopen(argc > 4 ? argv[4] : "/dev/null", "r"); char line[128]; struct prog *cur = NULL;
 	if (!f) { perror("program"); return 2; }
 	while (fgets(line, sizeof line, f)) {
